@@ -259,7 +259,7 @@ func (e *integEngine) checkC11(x *integExpect) {
 			}
 			c.Count("c11_chained_commands_checked")
 			var all []byte
-			for _, ch := range e.w.Plan(r.Info.ID).Chunks {
+			for _, ch := range e.w.PlanFor(r.Info.ID, e.pl.identity(r.Info.GID)).Chunks {
 				all = append(all, ch.Data...)
 			}
 			prev = string(all)
@@ -384,4 +384,100 @@ func (e *integEngine) checkC01Integ(x *integExpect) {
 		}
 	}
 	walk(e.w.Graph)
+}
+
+// checkC06Shared: a task shared by several stages; each stage's execution must follow the
+// sequencing model fed with that stage's own injected statuses (condition, hooks, commands).
+func (e *integEngine) checkC06Shared() {
+	c := e.c
+	for _, g := range e.w.AllGraphs() {
+		if !e.pipelineRan(g.Name) {
+			continue
+		}
+		dagFail := map[string]bool{}
+		for _, s := range g.Stages {
+			t := e.w.Task(e.stageTask(s))
+			dagFail[s.Name] = ModelTaskFor(e.w, t, s.Name).Failed
+		}
+		for _, s := range g.Stages {
+			s.Fail = dagFail[s.Name]
+		}
+		dag := EvalDag(g, false)
+		if dag.Ambiguous {
+			continue
+		}
+		for _, s := range g.Stages {
+			t := e.w.Task(e.stageTask(s))
+			var got []string
+			var rs []*execRec
+			for _, r := range e.execs {
+				if r.Info.Owner == t.Name && e.pl.identity(r.Info.GID) == s.Name {
+					got = append(got, r.Info.ID)
+					rs = append(rs, r)
+				}
+			}
+			if !dag.Ran[s.Name] {
+				if len(got) > 0 {
+					c.Violate("C06", "ran-unexpectedly", "stage %s must not run (a dependency failed) but executed %v", s.Name, got)
+				}
+				continue
+			}
+			want := ModelTaskFor(e.w, t, s.Name)
+			min := len(want.Seq)
+			if want.OptionalFrom >= 0 {
+				min = want.OptionalFrom
+			}
+			ok := len(got) >= min && len(got) <= len(want.Seq)
+			for i := 0; ok && i < len(got); i++ {
+				if got[i] != want.Seq[i] {
+					ok = false
+				}
+			}
+			if !ok {
+				c.Violate("C06", "sequence", "stage %s running the shared task %s executed %v, model (with this stage's condition / command results) expects %v", s.Name, t.Name, got, want.Seq)
+			}
+			for i := 1; i < len(rs); i++ {
+				if rs[i-1].EndSeq < 0 || rs[i].StartSeq < rs[i-1].EndSeq {
+					c.Violate("C06", "overlap", "stage %s: %s started before %s ended", s.Name, rs[i].Info.Key, rs[i-1].Info.Key)
+				}
+			}
+			if st := e.stages[s.Name]; st != nil && st.Task != nil && st.Task.Skipped != want.Skipped {
+				c.Violate("C06", "skipped-flag", "stage %s: Skipped=%v, model %v", s.Name, st.Task.Skipped, want.Skipped)
+			}
+			if want.Skipped {
+				c.Count("c06s_skipped_executions")
+			}
+			c.Count("c06s_executions_checked")
+		}
+	}
+}
+
+// checkC01Overlap: the part of C01 that also holds when commands are cut short by timeouts: no
+// command of a stage starts while a command of a stage it depends on is still running.
+func (e *integEngine) checkC01Overlap() {
+	c := e.c
+	for _, g := range e.w.AllGraphs() {
+		for _, s := range g.Stages {
+			if s.Nested != nil {
+				continue
+			}
+			mine := e.execsOf(e.stageTask(s))
+			if len(mine) == 0 {
+				continue
+			}
+			first := mine[0].StartSeq
+			for _, dn := range s.Deps {
+				d := g.Stage(dn)
+				if d == nil || d.Nested != nil {
+					continue
+				}
+				for _, r := range e.execsOf(e.stageTask(d)) {
+					if r.StartSeq < first && (r.EndSeq < 0 || r.EndSeq > first) {
+						c.Violate("C01", "start-before-dep-real-runner", "stage %s started its first command (seq %d) while command %s of its dependency %s was still running (ended seq %d)", s.Name, first, r.Info.Key, d.Name, r.EndSeq)
+					}
+				}
+				c.Count("c01i_dependency_edges_checked")
+			}
+		}
+	}
 }
